@@ -6,6 +6,10 @@ ROOT = os.path.dirname(os.path.dirname(os.path.abspath(__file__)))
 TECH = "deterministic simulation with fault injection: "
 
 CLAIMED = {
+ "C02": dict(
+  text="Seeded search over real trees on tmpfs (directories, files, fifos, links to files / directories inside and outside / ancestors / themselves / nothing / other links), 1-4 starting points in all spellings, -P/-H/-L/-follow, every (mindepth, maxdepth) pair incl. mindepth > maxdepth, -depth, -sorted, with find's stdout behind a simulated sink (short writes, EINTR). Fault batches: real EACCES from directories made unreadable/unsearchable under a dropped uid, and a scripted racing process removing / replacing / renaming / creating entries at exact record boundaries. Oracle: an independent lstat/stat/readdir reference walk on the same tree; exact multiset equality outside fault-affected subtrees, diagnostics and status as owed, termination within the step budget.",
+  note="Trusted: the reference walker (120 lines), the kernel's file system as model of itself. Races finer than an action boundary are out of reach. Two walkdir defects are recorded as known findings.",
+  tech=TECH+"real file system with injected permission faults and a scripted racing mutator at output-record boundaries; reference walk oracle"),
  "C04": dict(
   text="Seeded search over scenarios (argument sequence and its layout over input lines, initial arguments, every combination of -n/-L/-s/-x/-r with values at the interesting sizes, read plan, failing children, and in 10% of runs a real RLIMIT_STACK/environment that shrinks the system limiter's budget to a few hundred or thousand bytes). The real xargs_main runs in-process; the recorded history of invocations is checked against a greedy reference batcher clause by clause: conservation and order, unchanged command prefix, every limit, maximality, empty-input rule, own errors with diagnostic and exit 1. Sampling evidence, not proof.",
   note="Trusted: reference tokenizer and batcher (about 150 lines), the H1/H2 seams; fork/exec is stubbed (fabricated outcomes). Maximality under the operating-system budget is judged against a conservative accounting (see evidence assumptions).",
@@ -40,7 +44,7 @@ NA = {
  "C18":"relational statement over argv and file contents; its error-isolation clause is exercised inside C02",
 }
 PENDING = {k: "claimed in DESIGN.md; check still under construction (not yet registered)" for k in
-           ["C02","C07","C08","C09","C10","C15"]}
+           ["C07","C08","C09","C10","C15"]}
 
 def main():
     checks = []
